@@ -1,6 +1,7 @@
 package world
 
 import (
+	"sync/atomic"
 	coreexecutor "github.com/evstack/ev-node/core/execution"
 	"context"
 	"crypto/sha256"
@@ -75,6 +76,11 @@ type ExecDouble struct {
 	// FinalGate, when non-nil, is received from before SetFinal proceeds. Like a remote execution
 	// layer, a gated call honours its context: it fails with ctx.Err() when the context ends first.
 	FinalGate chan struct{}
+	// FinalSlow: SetFinal takes this long and does NOT honour its context (a local execution layer busy with a
+	// commit): whoever waits for the node's workers has to wait for it
+	FinalSlow time.Duration
+	// InFlight counts the calls of the node into the execution layer that have not returned yet.
+	InFlight atomic.Int32
 	// Inner, when set, is a real execution layer (the reference key-value executor): the double keeps its gates,
 	// scripted failures, trace records, mempool and root book, but state roots come from Inner and Inner's own
 	// durable state decides what a (re-)execution does.
@@ -143,6 +149,8 @@ func (e *ExecDouble) Inject(txs ...[]byte) {
 }
 
 func (e *ExecDouble) GetTxs(ctx context.Context) ([][]byte, error) {
+	e.InFlight.Add(1)
+	defer e.InFlight.Add(-1)
 	if g := e.TxsGate; g != nil {
 		if e.AtGate != nil {
 			e.AtGate("gettxs")
@@ -167,6 +175,8 @@ func (e *ExecDouble) RootIDs(root []byte) ([]string, bool) {
 }
 
 func (e *ExecDouble) ExecuteTxs(ctx context.Context, txs [][]byte, blockHeight uint64, timestamp time.Time, prevStateRoot []byte) ([]byte, uint64, error) {
+	e.InFlight.Add(1)
+	defer e.InFlight.Add(-1)
 	if e.Gate != nil {
 		if e.AtGate != nil {
 			e.AtGate("exec")
@@ -244,6 +254,8 @@ func (e *ExecDouble) ExecuteTxs(ctx context.Context, txs [][]byte, blockHeight u
 }
 
 func (e *ExecDouble) SetFinal(ctx context.Context, blockHeight uint64) error {
+	e.InFlight.Add(1)
+	defer e.InFlight.Add(-1)
 	if e.FinalGate != nil {
 		if e.AtGate != nil {
 			e.AtGate("final")
@@ -254,6 +266,12 @@ func (e *ExecDouble) SetFinal(ctx context.Context, blockHeight uint64) error {
 			e.tr.Emit("ExecFinal", F{"node": e.node, "h": int(blockHeight), "ok": false, "incl": -1})
 			return ctx.Err()
 		}
+	}
+	if e.FinalSlow > 0 {
+		if e.AtGate != nil {
+			e.AtGate("final")
+		}
+		time.Sleep(e.FinalSlow)
 	}
 	incl := -1
 	if p := e.Probe; p != nil {
